@@ -66,6 +66,10 @@ def stmt_code(s, ctx):
         return [("push", s[3]), ("push", s[2]), ("push", s[1]), "CODECOPY"]
     if k == "extcodecopy":  # ("extcodecopy", addr, d, o, n)
         return [("push", s[4]), ("push", s[3]), ("push", s[2]), ("push", s[1]), "EXTCODECOPY"]
+    if k == "callx":  # ("callx", "CALL"|"STATICCALL", addr expr): call with empty calldata, record success flag and the first returned word
+        val = ["PUSH0"] if s[1] == "CALL" else []
+        return ([("push", 32), "PUSH0", "PUSH0", "PUSH0"] + val + expr_code(s[2]) + [("push", 0xFFFF), s[1]]
+                + [("push", ctx.out_slot()), "MSTORE", "PUSH0", "MLOAD", ("push", ctx.out_slot()), "MSTORE"])
     if k == "if":  # ("if", cond, [stmts])
         lab = ctx.label()
         body = []
@@ -115,6 +119,8 @@ def stmt_str(s):
         return f"{k}({s[1]},{s[2]},{s[3]})"
     if k == "extcodecopy":
         return f"extcodecopy({s[1]:#x},{s[2]},{s[3]},{s[4]})"
+    if k == "callx":
+        return f"callx({s[1]},{expr_str(s[2])})"
     if k == "if":
         return f"if({expr_str(s[1])}){{{';'.join(stmt_str(t) for t in s[2])}}}"
     if k == "ifelse":
@@ -219,6 +225,13 @@ def statements(kind):
         if full:
             S.append(("out", ("EXTCODESIZE", ("k", a))))
             S.append(("out", ("EXTCODEHASH", ("k", a))))
+    # symbolic account addresses (alias resolution)
+    if full:
+        S.append(("out", ("EXTCODESIZE", X)))
+        S.append(("out", ("EXTCODEHASH", X)))
+        S.append(("out", ("balance", X)))
+        S.append(("callx", "CALL", X))
+        S.append(("callx", "STATICCALL", X))
     # branches
     bodies = [[("sstore", K0, K1)], [("mstore", 0, KMAX)], [("revert", 0, 32)], [("invalid",)], [("out", K1)]]
     for c in CONDS if full else CONDS[:2]:
